@@ -271,6 +271,77 @@ def c08(ctx):
     return "model_checking"
 
 
+@check("C04")
+def c04(ctx):
+    excl = "".join(common.excl_classes("C04"))
+    ctx.rule = ("records = the same calls made on fancy_regex::Regex and regex::Regex compiled from the SAME pattern string: is_match, find, captures (all groups, "
+                "every offset via *_from_pos / *_at), find_iter, captures_iter, split, splitn(0..5), replacen(0..3 x 8 replacers); TLC requires the two recordings "
+                "to be equal and both equal to Api.tla over RefSem; patterns: common-syntax grammar (classes, anchors, \\b/\\B, groups, named groups, lazy "
+                "quantifiers, (?i)/(?m)/(?s) nodes) exhaustive to the node bound, spelled plain, under (?U) and under (?x); non-trivial = matching cells")
+    mc_iter(ctx)
+    t3 = texts("sig6", 3)
+    t2 = texts("sig6", 2)
+    plain = []
+    for n in (1, 2, 3):
+        plain += read_ndjson(pats("plain", n))
+    def variants(recs, frac):
+        out = []
+        for r in recs:
+            out.append(r)
+            x = ctx.rng.random()
+            if x < frac:
+                out.append(dict(r, variant="U"))
+            elif x < 2 * frac:
+                out.append(dict(r, variant="x"))
+        return renumber_ids(out)
+    if ctx.quick:
+        spaces = [("plain123", variants(sample(ctx, plain, 700), 0.15), t3, "fi,ci,sp,co,rows"),
+                  ("plain_rp", variants(sample(ctx, plain, 400), 0.15), t2, "rp"),
+                  ("random_plain", variants(randgen.random_pats(ctx.rng, "plain", 500, depth=3), 0.15), t3, "fi,ci,sp,co,rows"),
+                  ("random_plain_rp", variants(randgen.random_pats(ctx.rng, "plain", 300, depth=3), 0.15), t2, "rp")]
+    else:
+        p4 = read_ndjson(pats("plain", 4))
+        spaces = [("plain123", variants(plain, 0.3), t3, "fi,ci,sp,co,rows"), ("plain_rp", variants(plain, 0.3), t2, "rp"),
+                  ("plain4", variants(sample(ctx, p4, 15000), 0.2), t3, "fi,ci,sp,co,rows"),
+                  ("random_plain", variants(randgen.random_pats(ctx.rng, "plain", 15000, depth=4, max_nodes=16), 0.2), t3, "fi,ci,sp,co,rows"),
+                  ("random_plain_rp", variants(randgen.random_pats(ctx.rng, "plain", 5000, depth=4, max_nodes=16), 0.2), t2, "rp")]
+    for name, recs, tpath, parts in spaces:
+        iterp.run_iters(ctx, name, recs, tpath, "x4", excl, regex=True, parts=parts)
+    probe_known(ctx, "x4", kind="iters")
+    ctx.exhaustive = False
+    ctx.assumptions = ITER_ASSUME + ["the regex crate (1.x from the offline cache) is the comparison partner the property names"]
+    return "model_checking"
+
+
+@check("C09")
+def c09(ctx):
+    ctx.rule = ("records = per (pattern, text): is_match, find, captures; per offset: find_from_pos, captures_from_pos; whole find_iter and captures_iter "
+                "histories; TLC checks the coherence equations AMONG the recorded values (is_match <=> find is Some <=> captures is Some, captures.get(0) = find, "
+                "_from_pos variants, find = find_from_pos(0) = first find_iter item, captures_iter spans = find_iter spans); unrestricted grammar "
+                "(self/forward references, \\G and \\K anywhere, conditionals, nullable loops); non-trivial = cells with a match")
+    mc_iter(ctx)
+    t3 = texts("sig6", 3)
+    tw = texts("wide", 3)
+    wild = []
+    for n in (1, 2, 3):
+        wild += read_ndjson(pats("wild", n))
+    it = []
+    for n in (1, 2, 3):
+        it += read_ndjson(pats("iter", n))
+    if ctx.quick:
+        spaces = [("wild123", renumber_ids(sample(ctx, wild, 1500)), t3), ("iter123", renumber_ids(sample(ctx, it, 600)), t3),
+                  ("random_wild", randgen.random_pats(ctx.rng, "wild", 800, depth=3), tw)]
+    else:
+        spaces = [("wild123", renumber_ids(wild), t3), ("iter123", renumber_ids(it), t3),
+                  ("wild4", renumber_ids(sample(ctx, read_ndjson(pats("wild", 4)), 20000)), t3),
+                  ("random_wild", randgen.random_pats(ctx.rng, "wild", 20000, depth=4, max_nodes=16), tw)]
+    for name, recs, tpath in spaces:
+        iterp.run_iters(ctx, name, recs, tpath, "co", "")
+    ctx.exhaustive = False
+    ctx.assumptions = ["no reference semantics involved: only equations among values recorded from the real API", "MC_Iter: on the model the two iterators are one definition"]
+    return "model_checking"
+
+
 @check("C10")
 def c10(ctx):
     excl = "".join(common.excl_classes("C10"))
